@@ -17,7 +17,7 @@ C19_CLASSES = {
     'backend_stop_while_idle', 'backend_past_timestamp_accepted', 'backend_nonfinite_timestamp_accepted',
     'backend_reschedule_not_replaced', 'backend_schedule_timing', 'backend_schedule_effect',
     'backend_mistral_task_guard', 'backend_mistral_task_effect', 'backend_parse_raised',
-    'backend_bad_timestamp_accepted',
+    'backend_bad_timestamp_accepted', 'backend_refused_changed_state',
 }
 C02_CLASSES = {'backend_query_not_answered', 'backend_parse_raised'}
 C03_CLASSES = {'backend_no_single_reply', 'backend_framing_residue', 'backend_parse_raised'}
